@@ -244,6 +244,9 @@ func (w *streamWorker) run(writes, reads []int) {
 	c := w.c
 	atomic.AddInt64(&c.evals, 1)
 	atomic.AddInt64(&c.streamCases, 1)
+	if sum(writes) > 0 {
+		atomic.AddInt64(&c.streamNontrivial, 1)
+	}
 	k := kase{Part: "stream", Writes: writes, Reads: reads}
 	shape := c.streamShape(writes, reads)
 	if shape == "leftover-read" {
